@@ -34,6 +34,7 @@ class Rule:
         self.nodes_txt = None
         self.weights_txt = None
         self.problem = None
+        self.merged = False
 
     @property
     def name(self):
@@ -168,6 +169,16 @@ def _read_branch(rule, body, lines):
         txts = []
         for e in part.elts:
             t = _literal_text(lines, e)
+            if t is None and isinstance(e, ast.BinOp) and isinstance(
+                    e.op, (ast.Sub, ast.Add)) and _literal_text(
+                        lines, e.left) is not None and _literal_text(
+                            lines, e.right) is not None:
+                # `a -b` / `a +b`: two signed literals with the comma lost
+                rule.problem = ('merged entries `%s`: two literals joined '
+                                'by a sign, the separating comma is missing'
+                                % ast.unparse(e))
+                rule.merged = True
+                return
             if t is None:
                 rule.problem = 'non-literal entry `%s`' % ast.unparse(e)
                 return
